@@ -101,6 +101,14 @@ def worker(unit, emit):
                             rec(body + _figi.calc_check_digit(body), 'reserved prefix ' + pre)
                         except Exception:
                             pass
+                if f in ('isin', 'isrc') and base == c and part == 0:
+                    # every code of either country table (as written and as executed) in front of this number
+                    for cc in p.get('codes', []):
+                        if f == 'isrc':
+                            rec(cc + c[2:], 'country code ' + cc)
+                        else:
+                            for z in '0123456789':
+                                rec(cc + c[2:-1] + z, 'country code %s + final %s' % (cc, z))
                 if f == 'imo':
                     rec('IMO ' + base, 'prefix')
                     rec('imo' + base, 'prefix')
@@ -253,6 +261,34 @@ def bitcoin_inputs(rnd, quick):
     return items
 
 
+def written_table(path, iso_path):
+    """two-letter codes of the statements that assign `_country_codes` in the module at `path`, plus the ISO 3166 list literal
+    of isin.py when those statements mention it; [] when the table is not spelled as literals"""
+    import ast
+
+    def codes(node):
+        return [n.value for n in ast.walk(node) if isinstance(n, ast.Constant) and isinstance(n.value, str) and len(n.value) == 2 and n.value.isupper()]
+
+    def statements(tree, name):
+        for node in tree.body:
+            tg = node.targets if isinstance(node, ast.Assign) else [node.target] if isinstance(node, (ast.AugAssign, ast.AnnAssign)) else []
+            if any(isinstance(t, ast.Name) and t.id == name for t in tg) and getattr(node, 'value', None) is not None:
+                yield node
+    try:
+        tree = ast.parse(open(path, encoding='utf-8').read())
+        iso_tree = ast.parse(open(iso_path, encoding='utf-8').read())
+    except (OSError, SyntaxError):
+        return []
+    own, uses_iso = [], False
+    for node in statements(tree, '_country_codes'):
+        own += codes(node.value)
+        uses_iso = uses_iso or any(isinstance(n, ast.Name) and n.id == '_iso_3116_1_country_codes' for n in ast.walk(node.value))
+    iso = [c for node in statements(iso_tree, '_iso_3116_1_country_codes') for c in codes(node.value)]
+    if not own or (uses_iso and not iso):
+        return []
+    return sorted(set(own + (iso if uses_iso else [])))
+
+
 def main():
     chk = run.Check(PROP)
     quick = chk.tier == 'quick'
@@ -271,12 +307,24 @@ def main():
             if ''.join('%d!%s' % (n, chr(t)) for n, t in toks) != bban:
                 toks = [[999, 110]]        # a structure the independent reading does not understand admits nothing
             ib.append({'cc': e['low'], 'tokens': toks})
-        json.dump({'isin_cc': sorted(lib.cps(c) for c in getattr(isin, '_country_codes', [])),
-                   'isrc_cc': sorted(lib.cps(c) for c in getattr(isrc, '_country_codes', [])), 'iban': ib}, fh)
+        # the country code tables AS WRITTEN in the two source files (the literal lists), not as found in the running
+        # interpreter: a table that is changed at run time (one module extending a list that another one shares) must show as
+        # a disagreement, not be inherited by the oracle.  Where the source does not spell the table as literals, the run-time
+        # table is the only reading there is.
+        run_tabs = {'isin': sorted(getattr(isin, '_country_codes', [])), 'isrc': sorted(getattr(isrc, '_country_codes', []))}
+        tabs = dict(run_tabs)
+        for fmt in ('isin', 'isrc'):
+            w = written_table(os.path.join(lib.REPO, 'stdnum', fmt + '.py'), os.path.join(lib.REPO, 'stdnum', 'isin.py'))
+            if w:
+                tabs[fmt] = w
+        chk.cov['country_tables'] = {f: {'as_written': len(tabs[f]), 'as_executed': len(run_tabs[f]), 'equal': tabs[f] == run_tabs[f]} for f in tabs}
+        json.dump({'isin_cc': sorted(lib.cps(c) for c in tabs['isin']),
+                   'isrc_cc': sorted(lib.cps(c) for c in tabs['isrc']), 'iban': ib}, fh)
+    p_codes = sorted(set(tabs['isin']) | set(tabs['isrc']) | set(run_tabs['isin']) | set(run_tabs['isrc']))
     skip_formats = [f for f, tab in (('isin', getattr(isin, '_country_codes', None)), ('isrc', getattr(isrc, '_country_codes', None))) if not tab]
     chk.cov['formats_skipped_for_missing_tables'] = skip_formats
     rnd = random.Random(chk.seed)
-    p = {'seed': chk.seed, 'bases': 8 if quick else 120, 'random': 60 if quick else 3000}
+    p = {'seed': chk.seed, 'bases': 8 if quick else 120, 'random': 60 if quick else 3000, 'codes': p_codes}
     units = []
     for f in sorted(FORMATS):
         if f in skip_formats:
@@ -317,7 +365,7 @@ def main():
     chk.report(rej)
     extra['val'] = extra.get('val', 0) + extra_b.get('bitcoin', 0)
     chk.assumptions += ['IBAN is compared with check_country=False (the national layer is C09); inputs are ASCII plus foreign digits/letters that the clean-up table does not translate',
-                        'country code tables of ISIN and ISRC are taken from the repository (given the same registry tables)']
+                        'country code tables of ISIN and ISRC are data taken from the repository as written in the two source files (the literal lists, not the tables found in the running interpreter)']
     return chk.finish(samples=first_meta(shards), distinct_nontrivial=extra.get('val', 0) + extra.get('block_payloads', 0),
                       exhaustive=not quick,
                       rule='per format: corpus presentations, every single-character replacement at every position over 0-9A-Z, deletions, insertions, '
